@@ -489,8 +489,10 @@ func vC33_batches() {
 	}
 	nA, nG := vCase("actors"), vCase("grains") // list lengths are split into jobs
 	requests := buildRelocateBatchRequests("dead:1", actors[:nA], grains[:nG])
-	from := vChoose("firstUnsent", 7)
-	vAssume(from <= len(requests))
+	from := vCase("sent") // number of batches delivered before the peer became unreachable
+	if from > len(requests) {
+		from = len(requests)
+	}
 	failures := &relocationFailures{}
 	recordUnsent(requests[from:], vC33_errPeer, failures)
 	fa, fg := splitFailures(failures.items())
